@@ -131,7 +131,7 @@ func (rs *reqState) decodeResponse(resp Response) *clientView {
 			if rs.log().Returned && rs.log().RetCode != 0 {
 				cv.Trailing = body
 				for i := 0; i < rs.log().Sent; i++ {
-					cv.Msgs = append(cv.Msgs, rs.method.mkResp(payloadFor(sp.ID, i, 'S', sp.Handler.Resps[i]))) // not judged
+					cv.Msgs = append(cv.Msgs, rs.method.mkResp(payloadFor(sp.payloadID(), i, 'S', sp.Handler.Resps[i]))) // not judged
 				}
 				return cv
 			}
